@@ -128,6 +128,18 @@ def install():
                 T, P, Z, H = (np.asarray(getattr(sol, k), dtype=float) for k in ("T", "P", "Z", "H"))
                 su = np.array([stds["std_" + n][v] for n in u_names], dtype=float)
                 sw = np.array([stds["std_" + n][v] for n in w_names], dtype=float)
+                # certificate: the square solution must carry the stable/unit roots the model reports (otherwise the
+                # Blanchard-Kahn rank condition fails and there is no unique stable solution: outside the quantifier)
+                try:
+                    ev_model = np.array(model.get_eigenvalues(unpack_singleton=False)[v], dtype=complex)
+                    ev_keep = np.sort(np.abs(ev_model[np.abs(ev_model) <= 1 + 1e-8]))
+                    ev_T = np.sort(np.abs(np.linalg.eigvals(T)))
+                    k_ = min(len(ev_keep), len(ev_T))
+                    if k_ and np.max(np.abs(ev_keep[-k_:] - ev_T[-k_:])) > 1e-6:
+                        c.inconc(f"{kind}:square-solution-degenerate(rank condition fails)")
+                        continue
+                except Exception:
+                    pass
                 ref, info = oracle_acov(T, P, Z, H, su, sw, up_to_order)
                 if ref is None:
                     c.inconc(f"{kind}:oracle-not-applicable:{info}")
